@@ -408,6 +408,7 @@ func c06check(k *mon.Case, st *c06stats, a *otlmini.Alphabet, list *otlmini.List
 	// find the first lookup (in application order) after which the two
 	// diverge, to name the witness class after its subtable types
 	culprit := "?"
+	var trace strings.Builder
 	for n := 1; n <= len(list.Lookups); n++ {
 		r := shaper.Apply(list.LL, a.Gdef, list.Lookups[:n], in)
 		if r.Undefined != "" {
@@ -417,7 +418,9 @@ func c06check(k *mon.Case, st *c06stats, a *otlmini.Alphabet, list *otlmini.List
 		if pv, _ := mon.Try(func() { o = gtab.NewContext(list.LL, a.Gdef, list.Lookups[:n]).Apply(c06copy(in)) }); pv != nil {
 			break
 		}
-		if f := c06diff(o, r.Seq); f != "" {
+		f := c06diff(o, r.Seq)
+		fmt.Fprintf(&trace, "after lookups %v: library %s reference %s\n", list.Lookups[:n], c06fmtRun(o), c06fmtRun(r.Seq))
+		if f != "" {
 			culprit = c06kindsOf(list.LL[list.Lookups[n-1]], list.Gpos)
 			field = f
 			break
@@ -427,8 +430,8 @@ func c06check(k *mon.Case, st *c06stats, a *otlmini.Alphabet, list *otlmini.List
 		*desc = c06describe(list.LL, list.Lookups, a.Gdef)
 	}
 	k.Fail("mismatch", "apply-differs:"+culprit+":"+field,
-		"Context.Apply differs from the reference shaper (%s, first diverging lookup %s)\ninput     %s\nlibrary   %s\nreference %s\n%s",
-		field, culprit, c06fmtRun(in), c06fmtRun(out), c06fmtRun(ref.Seq), *desc)
+		"Context.Apply differs from the reference shaper (%s, first diverging lookup %s)\ninput     %s\nlibrary   %s\nreference %s\n%s%s",
+		field, culprit, c06fmtRun(in), c06fmtRun(out), c06fmtRun(ref.Seq), *desc, trace.String())
 	return true
 }
 
@@ -451,7 +454,7 @@ func runC06(c *mon.Ctx) {
 	})
 
 	nKinds := len(c06allKinds)
-	c.Stratum("exhaustive", c.N(1680, 60480), func(k *mon.Case) {
+	c.Stratum("exhaustive", c.N(1176, 60480), func(k *mon.Case) {
 		r := k.Rng
 		i := k.Index
 		rot := int(c.Seed % 1000)
@@ -485,7 +488,7 @@ func runC06(c *mon.Ctx) {
 			"judged": st.judged, "undefined": st.undefined, "changed": st.changed})
 	})
 
-	c.Stratum("random", c.N(20000, 1500000), func(k *mon.Case) {
+	c.Stratum("random", c.N(15000, 1500000), func(k *mon.Case) {
 		r := k.Rng
 		sizes := []int{6, 10, 20, 40, 100, 300}
 		n := sizes[r.IntN(len(sizes))]
